@@ -846,6 +846,9 @@ class ArrayOf(DataType):
 
     def import_value(self, value):
         """returns a python object from serialisation"""
+        if not isinstance(value, (list, tuple)):
+            # do not iterate over the characters of a string or the keys of a dict
+            raise WrongTypeError(f'{shortrepr(value)} can not be imported to an array')
         return tuple(self.members.import_value(elem) for elem in value)
 
     def format_value(self, value, unit=True):
@@ -936,6 +939,10 @@ class TupleOf(DataType):
 
     def import_value(self, value):
         """returns a python object from serialisation"""
+        if not isinstance(value, (list, tuple)):
+            # do not iterate over the characters of a string or the keys of a dict
+            raise WrongTypeError(f'{shortrepr(value)} can not be imported to a tuple')
+        self.check_type(value)  # zip would silently drop superfluous elements
         return tuple(sub.import_value(elem) for sub, elem in zip(self.members, value))
 
     def format_value(self, value, unit=True):
@@ -1046,6 +1053,9 @@ class StructOf(DataType):
 
     def import_value(self, value):
         """returns a python object from serialisation"""
+        if not isinstance(value, dict):
+            # dict(value) in check_type would accept e.g. an empty list
+            raise WrongTypeError(f'{shortrepr(value)} can not be imported to a struct')
         self.check_type(value, True)
         return {str(k): self.members[k].import_value(v)
                 for k, v in value.items()}
